@@ -43,16 +43,21 @@ def showDRes : DRes → String
   | .refused => "refused"
   | .returned => "returned"
   | .parked => "parked"
+  | .waiting => "waiting"
   | .disconnected => "disconnected"
   | .disabled => "disabled"
 
-/-- Agent-level ops (real Agent.doPoll): reset-agent | asleep | awake | dpstart | dprelease -> <res> st=<STATE> -/
+/-- Agent-level ops (real Agent.doPoll): reset-agent [wait] | asleep | awake | dpstart | dprelease | wakecmd -> <res> st=<STATE> [dp=..] -/
 def dstepLine (d : DS) (line : String) : Option (DS × String) :=
   let go (l : DLabel) : Option (DS × String) :=
     let (d', res, _) := dstep d l
     some (d', s!"{showDRes res} st={showSt d'.st}")
   match tokens line with
   | ["reset-agent"] => some (DS.init, "ok")
+  | ["reset-agent", "wait"] => some (DS.init true, "ok")
+  | ["wakecmd"] =>
+    let (d', res, _) := dstep d .wakeCmd
+    some (d', s!"{showDRes res} st={showSt d'.st} dp={if d.waiting then "returned" else "none"}")
   | ["asleep"] => go .sleep
   | ["awake"] => go .wake
   | ["dpstart"] => go .dpStart
@@ -99,6 +104,8 @@ def specStep (s : SpecSt) (line : String) (implOut : String) : SpecSt × String 
   match tokens line, tokens implOut with
   | ["reset", n], _ => (SpecSt.init (n.toNat?.getD 1), "ok")
   | ["reset-agent"], _ => (s, "ok")
+  | ["reset-agent", _], _ => (s, "ok")
+  | ["wakecmd"], [_, st, _] => (s, if st == "st=AWAKE" then "ok" else "fail wake-command-left-agent-asleep")
   | ["stress", _, _, _], [out] => (s, if out == "stress-ok" then "ok" else s!"fail concurrent-sleep-wake-not-atomic-{out}")
   | ["stress", _, _, _], _ => (s, "fail concurrent-sleep-wake-not-atomic")
   | ["dprelease"], ["disconnected", "st=AWAKE"] => (s, "fail stale-dopoll-disconnects-awake-agent")
